@@ -194,24 +194,27 @@ func httpEngPair() (net.Conn, net.Conn) {
 	return a, <-ch
 }
 
-func httpEngReset() {
-	if httpEng != nil {
-		httpEng.srv.Close()
-		for _, c := range httpEng.clients {
-			c.c.Close()
-		}
-		httpEng.mu.Lock()
-		for _, c := range httpEng.conns {
-			c.Close()
-		}
-		httpEng.mu.Unlock()
+func (st *httpEngState) shutdown() {
+	st.srv.Close()
+	for _, c := range st.clients {
+		c.c.Close()
 	}
+	st.mu.Lock()
+	for _, c := range st.conns {
+		c.Close()
+	}
+	st.mu.Unlock()
+}
+
+// a fresh world: real Routers + HTTPReverseProxy behind a real http.Server on loopback
+func httpEngNew() (*httpEngState, *vhost.Routers) {
 	if os.Getenv("HTTPENG_DEBUG") != "" {
 		log.InitLogger("console", "trace", 0, true)
 	}
 	st := &httpEngState{clients: map[int]*httpEngClient{}, seenCh: make(chan *httpEngSeen, 64), routes: map[string]httpEngRoute{},
 		hit: map[*httpEngRespSpec]int{}}
-	st.rp = vhost.NewHTTPReverseProxy(vhost.HTTPReverseProxyOptions{ResponseHeaderTimeoutS: 1}, vhost.NewRouters())
+	routers := vhost.NewRouters()
+	st.rp = vhost.NewHTTPReverseProxy(vhost.HTTPReverseProxyOptions{ResponseHeaderTimeoutS: 1}, routers)
 	ln, err := net.Listen("tcp", "127.0.0.1:0")
 	if err != nil {
 		panic(err)
@@ -220,7 +223,14 @@ func httpEngReset() {
 	go func() { _ = st.srv.Serve(ln) }()
 	st.addr = ln.Addr().String()
 	st.page, _ = io.ReadAll(vhost.NotFoundResponse().Body)
-	httpEng = st
+	return st, routers
+}
+
+func httpEngReset() {
+	if httpEng != nil {
+		httpEng.shutdown()
+	}
+	httpEng, _ = httpEngNew()
 }
 
 func httpEngParseHdrs(t string) [][2]string {
@@ -1068,6 +1078,8 @@ func httpEngExec(tok []string) string {
 		return st.doSilent(unhx(tok[1]), unhx(tok[2]))
 	case "freq":
 		return st.doFault(tok)
+	case "ereq":
+		return st.doErr(tok)
 	case "plug":
 		return st.doPlug(tok)
 	case "h2c", "fh2c":
